@@ -2,6 +2,7 @@
 package codex
 
 import (
+	"bytes"
 	"encoding/binary"
 	"errors"
 	"fmt"
@@ -300,16 +301,30 @@ func GetCmd(c net.Conn) (string, string, bool, *pty.Winsize, error) {
 	hasSize := (t[0] & hasSizeFlag) != 0
 	l := make([]byte, 4)
 	io.ReadFull(c, l)
-	buf := make([]byte, binary.BigEndian.Uint32(l))
-	io.ReadFull(c, buf)
+	buf, err := readN(c, binary.BigEndian.Uint32(l))
+	if err != nil {
+		return "", "", usePty, nil, err
+	}
 	io.ReadFull(c, l)
-	term := make([]byte, binary.BigEndian.Uint32(l))
-	io.ReadFull(c, term)
+	term, err := readN(c, binary.BigEndian.Uint32(l))
+	if err != nil {
+		return "", "", usePty, nil, err
+	}
 	var size *pty.Winsize
 	if hasSize {
 		size, _ = readSize(c)
 	}
 	return string(buf), string(term), usePty, size, nil
+}
+
+// readN reads exactly n bytes. The buffer grows with the bytes that actually
+// arrive, so a peer cannot make the reader allocate n bytes up front.
+func readN(r io.Reader, n uint32) ([]byte, error) {
+	var buf bytes.Buffer
+	if _, err := io.CopyN(&buf, r, int64(n)); err != nil {
+		return nil, err
+	}
+	return buf.Bytes(), nil
 }
 
 func readSize(r io.Reader) (*pty.Winsize, error) {
